@@ -12,8 +12,12 @@ REPO = os.environ.get('PGMV_REPO', '/repo')
 BUILD = os.environ.get('PGMV_BUILD', os.path.join(VERIF, 'build'))
 
 # property -> evidence level (default 'proof')
-LEVELS = {}
-EXPLAIN = {}
+LEVELS = {'C08': 'other', 'C12': 'other', 'C15': 'other'}
+EXPLAIN = {
+    'C08': 'Deductive core: CompressedLevel accessors under contract (obligations/discharged below). The search contract itself is decided only by the bounded native link on the real class; bounded results are never counted as proved.',
+    'C12': 'No function is under contract for this property yet; the equivalence of the three construction paths is decided only by the bounded native link on the real class (files compared byte by byte).',
+    'C15': 'Deductive core: capacity helpers (ceil_log2, max_size) under contract. The invariants after every update are decided only by the bounded native link through the guarded friend accessor.',
+}
 
 # bounded native links: dict(name, props, src, flags, args{tier: [..]}, bound, rule, assumptions)
 LINKS = []
@@ -125,13 +129,22 @@ def try_reproduce(prop, rec, f, path):
         out = ''
         p = None
     found = None
+    known = []
+    try:
+        kf = json.load(open(os.path.join(VERIF, 'known_findings.json')))
+        known = [k['obligation'] for k in kf.get('findings', []) if k.get('link') == rp['name']]
+    except Exception:
+        pass
     for line in out.split('\n'):
         if line.startswith('{') and '"violation"' in line:
             try:
-                found = json.loads(line)
-                break
+                cand = json.loads(line)
             except Exception:
-                pass
+                continue
+            if any(re.search(k, cand.get('violation', '')) for k in known):
+                continue     # a recorded known finding is not a reproduction of this failure
+            found = cand
+            break
     body['reproduced_on_real_code'] = bool(found)
     if found:
         body['input'] = found.get('input')
@@ -198,3 +211,51 @@ L(name='md_range_link', props=['C13'], src='md_link.cpp', flags=NOWARN, args={'q
 REPRO['md_contains'] = dict(name='md_contains_link', src='md_link.cpp', flags=NOWARN, args=['contains', 'quick'])
 REPRO['md_advance'] = dict(name='md_range_link', src='md_link.cpp', flags=NOWARN, args=['range', 'quick'])
 REPRO['md_ctor'] = dict(name='md_range_link', src='md_link.cpp', flags=NOWARN, args=['range', 'quick'])
+
+STATIC = ['-Wno-deprecated-declarations', '-DNDEBUG']
+SB = {'quick': 'all sorted arrays of length <= 5 over 3-4 alphabets of 6 keys (bottom / middle / top of the key range, every duplicate pattern) + 25 random arrays (n <= 3000, duplicate runs, skewed) per configuration; queries: every key, key+-1, lowest(), max-1, mid-range',
+      'thorough': 'arrays of length <= 7, 120 random arrays per configuration'}
+L(name='pgm_static_link', props=['C01', 'C02'], src='static_link.cpp', flags=STATIC + ['-DLINK_PGM'], args={'quick': ['quick'], 'thorough': ['thorough']}, bound=SB,
+  rule='real PGMIndex<K,Eps,EpsRec,Floating>::search (15 configurations incl. all 8 integer key types, float/double keys, binary-search routing) vs std::lower_bound: lo<=hi<=n, width, C02 bracket, C01 strictness; plus chunked construction (n=2^15, 16 and 5 threads, 5 duplicate-run shapes at chunk seams); a case = one (array, query); distinct = arrays',
+  assumptions=['bounded link: establishes ACC and WF_levels (the assumed interface of the search-side proofs) only on the enumerated inputs; never counted as proved'])
+L(name='compressed_static_link', props=['C08'], src='static_link.cpp', flags=STATIC + ['-DLINK_COMPRESSED'], args={'quick': ['quick'], 'thorough': ['thorough']}, bound=SB,
+  rule='real CompressedPGMIndex::search (7 configurations: 8..64-bit keys, EpsilonRecursive 0/1/4/256) vs std::lower_bound', assumptions=['bounded link: never counted as proved'])
+L(name='bucketing_static_link', props=['C09'], src='static_link.cpp', flags=STATIC + ['-DLINK_BUCKETING'], args={'quick': ['quick'], 'thorough': ['thorough']}, bound=SB,
+  rule='real BucketingPGMIndex::search (7 configurations: power-of-two and other TopLevelSize, fixed and dynamic cell width) vs std::lower_bound', assumptions=['bounded link: never counted as proved'])
+L(name='ef_static_link', props=['C10', 'C17'], src='static_link.cpp', flags=STATIC + ['-DLINK_EF'], args={'quick': ['quick'], 'thorough': ['thorough']}, bound=SB,
+  rule='real EliasFanoPGMIndex::search (5 configurations, 16..64-bit keys) vs std::lower_bound; each configuration runs in a child process so that a memory error is reported, not fatal',
+  assumptions=['bounded link: never counted as proved'])
+L(name='mapped_queries_link', props=['C11'], src='mapped_link.cpp', flags=STATIC, args={'quick': ['queries', 'quick'], 'thorough': ['queries', 'thorough']},
+  bound={'quick': '6 configurations (signed/unsigned 16..64-bit keys, Epsilon 1..128, EpsilonRecursive 0..4); duplicate runs of length 1, 2, 2eps+1..2eps+3, 63..65, 300, ending at end() or followed by more keys; 12 random arrays each',
+         'thorough': '60 random arrays each'},
+  rule='real MappedPGMIndex lower_bound/upper_bound/count/contains/begin/end/size vs the std algorithms', assumptions=['bounded link: never counted as proved'])
+L(name='mapped_files_link', props=['C12'], src='mapped_link.cpp', flags=STATIC, args={'quick': ['files', 'quick'], 'thorough': ['files', 'thorough']},
+  bound={'quick': 'same arrays as mapped_queries_link', 'thorough': '60 random arrays each'},
+  rule='create from range vs create from raw key file vs reopen (twice): byte-identical files, identical answers, reopening does not alter the file',
+  assumptions=['bounded link: never counted as proved'])
+REPRO['pgmindex_search'] = dict(name='pgm_static_link', src='static_link.cpp', flags=STATIC + ['-DLINK_PGM'], args=['quick'])
+REPRO['pgmindex_segment_for_key'] = REPRO['pgmindex_search']
+REPRO['segment_call'] = REPRO['pgmindex_search']
+REPRO['ef_search'] = dict(name='ef_static_link', src='static_link.cpp', flags=STATIC + ['-DLINK_EF'], args=['quick'])
+REPRO['ef_segmentdata_call'] = REPRO['ef_search']
+REPRO['bucketing_search'] = dict(name='bucketing_static_link', src='static_link.cpp', flags=STATIC + ['-DLINK_BUCKETING'], args=['quick'])
+REPRO['bucketing_segment_for_key'] = REPRO['bucketing_search']
+for _u in ('compressed_size', 'compressed_get_intercept', 'compressed_get_slope', 'compressed_call'):
+    REPRO[_u] = dict(name='compressed_static_link', src='static_link.cpp', flags=STATIC + ['-DLINK_COMPRESSED'], args=['quick'])
+for _u in ('mapped_lower_bound', 'mapped_upper_bound', 'mapped_count', 'mapped_contains'):
+    REPRO[_u] = dict(name='mapped_queries_link', src='mapped_link.cpp', flags=STATIC, args=['queries', 'quick'])
+DYNF = ['-Wno-deprecated-declarations', '-DNDEBUG']
+DB = {'quick': '7 configurations (base 2..16, buffer_level 1..2, index_level 0..3: small levels carry a PGM-index) x 8 histories: bulk-load (empty or sorted with repeated keys) + 500 insert_or_assign/erase over a 61- or 201-key universe with revisited keys; checks after every operation (invariants) / every 7th (queries)',
+      'thorough': '40 histories of 1500 operations per configuration'}
+L(name='dyn_points_link', props=['C05'], src='dyn_link.cpp', flags=DYNF, args={'quick': ['points', 'quick'], 'thorough': ['points', 'thorough']}, bound=DB,
+  rule='real DynamicPGMIndex find/count/lower_bound for every key of the universe vs std::map after histories; a case = one operation of a history; distinct = histories',
+  assumptions=['bounded link: never counted as proved'])
+L(name='dyn_traversal_link', props=['C06'], src='dyn_link.cpp', flags=DYNF, args={'quick': ['traversal', 'quick'], 'thorough': ['traversal', 'thorough']}, bound=DB,
+  rule='real begin()..end(), iteration from lower_bound, range(lo,hi), size(), empty() vs std::map after histories', assumptions=['bounded link: never counted as proved'])
+L(name='dyn_invariants_link', props=['C15'], src='dyn_link.cpp', flags=DYNF, args={'quick': ['invariants', 'quick'], 'thorough': ['invariants', 'thorough']}, bound=DB,
+  rule='LSM invariants read through the guarded friend accessor after every operation: strict sortedness, capacities, no data beyond used_levels, index of every non-empty indexed level built on exactly its keys, emptied levels own a default index',
+  assumptions=['bounded link: never counted as proved'])
+for _u in ('dyn_lower_bound_bl', 'dyn_find'):
+    REPRO[_u] = dict(name='dyn_points_link', src='dyn_link.cpp', flags=DYNF, args=['points', 'quick'])
+for _u in ('dyn_ceil_log2', 'dyn_max_size'):
+    REPRO[_u] = dict(name='dyn_invariants_link', src='dyn_link.cpp', flags=DYNF, args=['invariants', 'quick'])
